@@ -10,6 +10,26 @@ CLAIMED = {
             "Every byte string <= 6 (thorough 7) over a 15-byte alphabet, every token sequence <= 3 (4) over a 52-token alphabet (one token per value kind and per rejection branch) and <= 5 (6) over a 16-token core, every probe at every offset 0..130 relative to the 64-byte blocks, at every index around the 1408-entry flush of index buffers 1 and 2 and at total lengths 8192+-70 is parsed by the real code under all four kernel/string-mode configurations and compared with the grammar model (both directions of the iff). Bounded-exhaustive: a coverage statement over the stated alphabets and placements, which is what a for-all-inputs property needs and a test list cannot give.",
             "Trusted: ref/refjson.go (cross-checked against encoding/json in setup). Not covered: inputs outside the alphabets/carriers; multi-MiB inputs away from the internal boundaries.",
             "DESIGN.md 4.1"),
+    "C02": ("exhaustive enumeration of bounded document space on the real parser + iterator API vs. ordered reference tree",
+            "Every ordered tree with <= 4 (thorough 5) nodes over 8 scalar kinds and 3 keys (duplicates and empty key included) in 4 white-space layouts, every nesting depth 1..600 (+1000, 10000, thorough 100000) in three shapes, and every token kind on every index-buffer slot around the flush of buffers 1, 2 and 16/17 (ring wrap) is parsed under all four configs and read back through four combinations of the traversal APIs, the flat AdvanceInto walk and Interface(); each must equal the reference tree exactly (order, duplicates, bytes, number types).",
+            "Trusted: reference parser/tree. Not covered: documents larger than the ladders, scalar values outside the alphabet (numbers/strings are C03/C04).",
+            "DESIGN.md 4.2"),
+    "C08": ("exhaustive enumeration of bounded line-sequence space on the real ParseND vs. per-line Parse and an NDJSON model",
+            "Every sequence of <= 4 (thorough 5) lines over a 15-line alphabet (valid documents, invalid documents, blank and white-space-only lines) x {LF, CRLF} x {final newline or not}, root boundaries swept over every index-buffer slot around the flush edges of buffers 1, 2 and 16/17, the 8 KiB threshold and a 30000-line input, under all four configs. Oracle is the property's own definition evaluated with the real Parse per line, cross-checked with an independent model, plus tree equality of the exposed roots through all walkers.",
+            "Inputs without any non-blank line are treated as outside the claim. Line alphabet is finite.",
+            "DESIGN.md 4.8"),
+    "C13": ("explicit-state BFS over Set* operation histories on the real tape vs. edit model",
+            "Breadth-first search over all histories of Set* calls to depth 2 (thorough 3) from 8 seed documents in both string modes: every value position x 9 calls x 3 navigation routes; each successor is produced by the real call on a clone; states deduplicated on exact tape+string bytes. Every reached state is read back through all traversal APIs, lookups, MarshalJSON (root, inner, Array, Elements) and a serialize round trip and compared with the edit model; disallowed calls must error and leave the bytes unchanged.",
+            "Trusted: edit model (type gates from the doc comments). Keys and root words are not Set* targets.",
+            "DESIGN.md 4.13"),
+    "C14": ("explicit-state BFS over deletion/replacement histories on the real tape vs. delete model",
+            "Breadth-first search to depth 2 (thorough 3) over Object/Array.DeleteElems with every member subset (<= 2^5) in each call form (predicate, filter, both, both nil) through 3 navigation routes, SetNull on containers and interleaved replacements. Oracles: callback protocol (each member once, in order, right key and value) and, in every reached state, agreement of Advance, AdvanceIter, AdvanceInto, ForEach, NextElement(Bytes), Object.Parse, Interface/Map, FindKey/FindPath, MarshalJSON (Iter, Array, Elements) and a serialize round trip with the model.",
+            "Trusted: delete model. Filter forms only on objects with unique keys (documented precondition).",
+            "DESIGN.md 4.14"),
+    "C17": ("exhaustive enumeration of produced tapes checked against a tape-format invariant checker",
+            "Every tape the real Parse/ParseND produces for the bounded document space of C02 and the accepted inputs of C08's line-sequence space under all four configs, and every tape obtained by Deserialize(Serialize(.)) in all four modes from every state of the delete/replace history graph (depth 1, thorough 2), is checked against the documented format: root pairs, start/end offsets, nesting, key/value alternation, in-range strings, payload words, strict NOP runs after Deserialize.",
+            "Trusted: ref/reftape.go as a transcription of README.md's tape description.",
+            "DESIGN.md 4.17"),
 }
 
 PENDING_REASON = "check not built yet in this round (planned, see DESIGN.md section 8); not claimed until its machinery exists"
